@@ -62,6 +62,9 @@ var driverFaults = map[string][]fault{
 	seams.SQLCommit:   {{"error_nothing_committed", errors.New("injected: disk I/O error"), false}, {"error_after_commit", errors.New("injected: commit reported failed after it happened"), true}},
 	seams.SQLRollback: {{"error", errors.New("injected: disk I/O error"), false}},
 	seams.SQLNext:     {{"error", errors.New("injected: database is locked"), false}},
+	// (the pinned code never prepares a statement explicitly; positions of this kind exist only where a
+	// tree does, e.g. one that keeps prepared statements)
+	seams.SQLPrepare: {{"error", errors.New("injected: disk I/O error"), false}},
 }
 
 var fileN atomic.Int64
@@ -429,6 +432,59 @@ func main() {
 			run.Count("persistent_fault_reached")
 			run.Add("persistent_fault_occurrences", int64(n))
 		}
+	})
+	// the very first storage statement after start-up fails (nothing has touched the store since Init): whatever
+	// the tree sets up lazily on first use must not latch that failure
+	firstOps := []string{seams.SQLBegin, seams.SQLPrepare, seams.SQLQuery, seams.SQLNext, seams.SQLExec, seams.SQLCommit}
+	run.Floor("first_statement_fault_plans", int64(2*2*len(firstOps)))
+	run.Units("first_statement", 2*2*len(firstOps), 0, func(unit int64, r *rand.Rand) {
+		level := []string{"driver-mem", "driver-file"}[unit%2]
+		viaRead := (unit/2)%2 == 1 // the first operation is a read of the checkpoint instead of an update
+		op := firstOps[int(unit/4)%len(firstOps)]
+		b, err := newBench(r, level, dir)
+		if err != nil {
+			run.Inconclusive(err.Error())
+			return
+		}
+		defer b.close()
+		q, _ := b.scenario("first_use")
+		armed, fired := true, false
+		b.plan.SetHook(func(gotOp string, idx int, phase string) error {
+			if armed && gotOp == op && phase == "before" {
+				armed, fired = false, true
+				return errors.New("injected: disk I/O error")
+			}
+			return nil
+		})
+		what := fmt.Sprintf("first_statement/%s/%s/read_first=%v", level, op, viaRead)
+		var uerr error
+		if why := b.guarded(func() {
+			if viaRead {
+				_, uerr = b.rn.W.GetCheckpoint(b.l.ID)
+			} else {
+				_, uerr = b.rn.W.Update(context.Background(), b.l.ID, q.old, q.cp, q.proof)
+			}
+		}); why != "" {
+			if why == "inconclusive" {
+				run.Inconclusive("watchdog: the first operation after start-up did not return (" + what + ")")
+			} else {
+				run.Violate("update_never_returns;first_statement", "the first operation after start-up did not complete: "+why, unit, map[string]any{"plan": what})
+			}
+			return
+		}
+		b.plan.SetHook(nil)
+		run.Count("evaluations")
+		run.Count("first_statement_fault_plans")
+		run.Distinct("nontrivial", what)
+		if fired {
+			run.Count("first_statement_fault_reached")
+		}
+		_ = uerr
+		if why := b.quiescent(); why != "" {
+			run.Violate("not_quiescent;first_statement;op="+op, "after the faulted first operation returned: "+why, unit, map[string]any{"plan": what})
+			return
+		}
+		recover_(run, unit, b, what, "first_statement")
 	})
 	// multi-fault histories
 	run.Units("multi", run.Pick(1500, 60000), 0, func(unit int64, r *rand.Rand) {
